@@ -65,8 +65,17 @@ def gen_history(rng, thorough):
         else:
             lat = rng.uniform(-80, 80)
         lon = rng.choice([rng.uniform(-180, 180), 179.97, -179.97, 0.01, -0.01])
-        acs.append(dict(addr=rng.getrandbits(24) | 0x10, lat=lat, lon=lon, hdg=rng.uniform(0, 360),
-                        spd=rng.uniform(0, 150) if surface else rng.uniform(100, 600), surface=surface, i=rng.randrange(2), t_last=None))
+        hdg = rng.uniform(0, 360)
+        spd = rng.uniform(0, 150) if surface else rng.uniform(100, 600)
+        if not surface and rng.random() < 0.15:
+            # flying straight across a transition latitude: the first even/odd pair may straddle it
+            th = float(rng.choice(cpr.transition_lats()[:-2]))
+            sgn = rng.choice([1, -1])
+            lat = sgn * th + rng.choice([1, -1]) * rng.uniform(0.0, 0.002)
+            hdg = rng.choice([0.0, 180.0])
+            spd = 600.0
+        acs.append(dict(addr=rng.getrandbits(24) | 0x10, lat=lat, lon=lon, hdg=hdg,
+                        spd=spd, surface=surface, i=rng.randrange(2), t_last=None))
     noise = [rng.getrandbits(24) for _ in range(2)]
     rx = (acs[0]["lat"] + rng.uniform(-0.3, 0.3), acs[0]["lon"] + rng.uniform(-0.3, 0.3))
     rx = (max(-89.9, min(89.9, rx[0])), (rx[1] + 180) % 360 - 180)
